@@ -57,11 +57,13 @@ struct Sys {
     c: Address,
     fl: Flavour,
     lab: bool,
+    base: u32,
 }
 
 impl Sys {
-    fn new(flavour: &str, lab: bool) -> Sys {
-        let e = new_env(&LedgerCfg { seq: NOW0, min_temp: 1, min_persistent: 1_000_000, max_ttl: MAX_TTL });
+    /// `base`: ledger the run starts from (minus NOW0); ledgers and expiries are logged relative to it
+    fn new(flavour: &str, lab: bool, base: u32) -> Sys {
+        let e = new_env(&LedgerCfg { seq: base + NOW0, min_temp: 1, min_persistent: 1_000_000, max_ttl: MAX_TTL });
         let names = Names::new(&e, &ACCTS);
         let a = names.get("a");
         let (c, fl) = match flavour {
@@ -76,7 +78,7 @@ impl Sys {
             ),
             f => panic!("flavour {f}"),
         };
-        Sys { e, names, c, fl, lab }
+        Sys { e, names, c, fl, lab, base }
     }
 
     fn holder(&self) -> String {
@@ -93,7 +95,7 @@ impl Sys {
     fn step(&mut self, op: &Value) -> Value {
         let e = &self.e;
         set_seq(e, seq(e) + n(op, "dt") as u32);
-        let now = seq(e);
+        let now = seq(e) - self.base;
         let who = auth_addrs(op, &self.names);
         let kind = s(op, "op");
         let (res, code) = match self.fl {
@@ -102,7 +104,7 @@ impl Sys {
                 match kind {
                     "offer" | "cancel" => {
                         let new = self.names.get(s(op, "new"));
-                        let until = n(op, "until") as u32;
+                        let until = if n(op, "until") > 0 { (self.base as u64 + n(op, "until") as u64).min(u32::MAX as u64) as u32 } else { 0 };
                         set_auth_same(e, &who, &Inv::new(&self.c, "transfer_ownership", args(e, (new.clone(), until))));
                         res_of(&cl.try_transfer_ownership(&new, &until))
                     }
@@ -126,7 +128,7 @@ impl Sys {
                 match kind {
                     "offer" | "cancel" => {
                         let new = self.names.get(s(op, "new"));
-                        let until = n(op, "until") as u32;
+                        let until = if n(op, "until") > 0 { (self.base as u64 + n(op, "until") as u64).min(u32::MAX as u64) as u32 } else { 0 };
                         set_auth_same(e, &who, &Inv::new(&self.c, "transfer_admin_role", args(e, (new.clone(), until))));
                         res_of(&cl.try_transfer_admin_role(&new, &until))
                     }
@@ -151,7 +153,7 @@ impl Sys {
 }
 
 fn reset_event(sys: &Sys, flavour: &str) -> Value {
-    json!({"op": {"op": "reset", "new": "none", "until": 0, "auth": [], "dt": 0, "flavour": flavour, "lab": sys.lab},
+    json!({"op": {"op": "reset", "new": "none", "until": 0, "auth": [], "dt": 0, "flavour": flavour, "lab": sys.lab, "base": sys.base.to_string()},
            "now": NOW0, "res": "ok", "err": 0, "obs": {"holder": sys.holder()}})
 }
 
@@ -166,7 +168,8 @@ fn main() {
                 };
                 for fl in flavours {
                     let lab = b.cfg.get("lab").and_then(|v| v.as_bool()).unwrap_or(bi % 2 == 1);
-                    let mut sys = Sys::new(&fl, lab);
+                    let base: u32 = b.cfg.get("base").and_then(|v| v.as_str()).and_then(|x| x.parse().ok()).unwrap_or(0);
+                    let mut sys = Sys::new(&fl, lab, base);
                     t.reset(reset_event(&sys, &fl));
                     for op in &b.ops {
                         let ev = sys.step(op);
@@ -181,10 +184,11 @@ fn main() {
             let mut r = StdRng::seed_from_u64(seed);
             for run in 0..runs {
                 let fl = if run % 2 == 0 { "ownable" } else { "access" };
-                let mut sys = Sys::new(fl, (run / 2) % 2 == 1);
+                let base: u32 = if (run / 4) % 4 == 3 { *pick(&mut r, &[i32::MAX as u32 - 30, i32::MAX as u32 - 12, 3_000_000_000u32]) } else { 0 };
+                let mut sys = Sys::new(fl, (run / 2) % 2 == 1, base);
                 t.reset(reset_event(&sys, fl));
                 for _ in 0..len {
-                    let now = seq(&sys.e) as i64;
+                    let now = (seq(&sys.e) - sys.base) as i64;
                     let dt = if r.gen_ratio(1, 25) { 3000 } else { *pick(&mut r, &[0i64, 0, 0, 1, 1, 2, 3, 7]) };
                     let holder = sys.holder();
                     // authorizers: mostly the interesting parties, sometimes arbitrary subsets
